@@ -4,7 +4,7 @@ import ast
 
 from ..cfg import cfg_of
 from ..core import (
-    cond_facts, enclosing_func,
+    cond_facts, enclosing_func, Undecidable,
     ancestors, assigns_to, body_walk, call_attr, call_name, calls_in, const_value, dotted, enclosing_stmt, is_const, kwarg,
     nodes_of_type, parent, stores_to, unparse, walk_local, names_in, param_names,
 )
@@ -334,16 +334,92 @@ def byteorder(ctx):
     ctx.check(any("array.byteswap().view(array.dtype.newbyteorder('='))" in unparse(s_, 400) for s_ in ast.walk(e) if isinstance(s_, ast.Assign)), e, "swap = byteswap + view with native dtype (values preserved)")
     pr = ctx.repo.func(NPU, "_is_numpy_array_byte_order_mismatch")
     rets_ = nodes_of_type(pr, ast.Return)
-    ctx.need(len(rets_) == 1 and isinstance(rets_[0].value, ast.BoolOp) and isinstance(rets_[0].value.op, ast.Or) and len(rets_[0].value.values) == 2, "byte-order predicate shape not recognised")
-    for side in rets_[0].value.values:
-        txt = ast.unparse(side)
-        host = "big" if "sys.byteorder == 'big'" in txt else "little" if "sys.byteorder == 'little'" in txt else None
-        foreign = {"big": "<", "little": ">"}.get(host)
-        quant = [c_ for c_ in ast.walk(side) if isinstance(c_, ast.Call) and call_name(c_) in ("all", "any")]
-        cmps = [const_value(c_.comparators[0]) for c_ in ast.walk(side) if isinstance(c_, ast.Compare) and "byteorder" in ast.unparse(c_.left) and "sys" not in ast.unparse(c_.left)]
-        ctx.check(host is not None and set(cmps) == {foreign, "|"}, side, "on a %s-endian host a mismatch means byte order %r (or a struct, '|')" % (host, foreign), "byte-order predicate compares with %s on a %s host" % (sorted(set(map(str, cmps))), host))
-        ctx.check(len(quant) == 1 and call_name(quant[0]) == "all", quant[0] if quant else side, "a structured dtype is foreign only if ALL its fields are (a swap of the whole record is then value-preserving)",
-                  "a structured dtype is treated as foreign when ANY field is: native fields of mixed-endian records are byte-swapped and corrupted")
+    if len(rets_) != 1 or rets_[0].value is None:
+        raise Undecidable("the byte-order predicate no longer returns one boolean expression (shape not recognised)")
+    else:
+        # finite truth table: the predicate's own expression is interpreted over (host order) x (dtype.byteorder) x (field orders)
+        arg = pr.args.args[0].arg
+        class _Unknown(Exception):
+            pass
+
+        def ev(e, env):
+            if isinstance(e, ast.Constant):
+                return e.value
+            if isinstance(e, ast.BoolOp):
+                v = None
+                for x in e.values:
+                    v = ev(x, env)
+                    if isinstance(e.op, ast.And) and not v:
+                        return v
+                    if isinstance(e.op, ast.Or) and v:
+                        return v
+                return v
+            if isinstance(e, ast.UnaryOp) and isinstance(e.op, ast.Not):
+                return not ev(e.operand, env)
+            if isinstance(e, ast.IfExp):
+                return ev(e.body, env) if ev(e.test, env) else ev(e.orelse, env)
+            if isinstance(e, ast.Call) and call_name(e) == "bool" and len(e.args) == 1:
+                return bool(ev(e.args[0], env))
+            if isinstance(e, ast.Compare) and len(e.ops) == 1:
+                l, r = ev(e.left, env), ev(e.comparators[0], env)
+                op = e.ops[0]
+                if isinstance(op, ast.Eq):
+                    return l == r
+                if isinstance(op, ast.NotEq):
+                    return l != r
+                if isinstance(op, ast.In):
+                    return l in r
+                if isinstance(op, ast.NotIn):
+                    return l not in r
+                if isinstance(op, ast.Is):
+                    return l is r
+                if isinstance(op, ast.IsNot):
+                    return l is not r
+                raise _Unknown(unparse(e))
+            if isinstance(e, (ast.Tuple, ast.List, ast.Set)):
+                return tuple(ev(x, env) for x in e.elts)
+            txt = ast.unparse(e)
+            if txt in env:
+                return env[txt]
+            if isinstance(e, ast.Name):
+                d_ = [a_ for a_ in nodes_of_type(pr, ast.Assign) if e.id in stores_to(a_)]
+                if len(d_) == 1:
+                    return ev(d_[0].value, env)
+            if isinstance(e, ast.Call) and call_name(e) in ("all", "any") and len(e.args) == 1 and isinstance(e.args[0], ast.GeneratorExp) and len(e.args[0].generators) == 1:
+                gen = e.args[0].generators[0]
+                it = ast.unparse(gen.iter)
+                if it != arg + ".dtype.fields.values()" or not isinstance(gen.target, ast.Name) or gen.ifs:
+                    raise _Unknown(it)
+                fields = env[arg + ".dtype.fields"]
+                vals = []
+                for fbo in fields:
+                    env2 = dict(env)
+                    env2[gen.target.id + "[0].byteorder"] = fbo
+                    env2[gen.target.id + "[0].str[0]"] = fbo
+                    vals.append(bool(ev(e.args[0].elt, env2)))
+                return all(vals) if call_name(e) == "all" else any(vals)
+            raise _Unknown(txt)
+
+        table_bad, n_rows = [], 0
+        try:
+            for host in ("big", "little"):
+                foreign = "<" if host == "big" else ">"
+                for bo in ("<", ">", "=", "|"):
+                    for fields in (None, ("<", "<"), (">", ">"), ("<", ">"), ("=", "="), ("=", foreign)):
+                        if bo != "|" and fields is not None:
+                            continue
+                        env = {"sys.byteorder": host, arg + ".dtype.byteorder": bo, arg + ".dtype.fields": fields}
+                        got = bool(ev(rets_[0].value, env))
+                        want = bo == foreign or (bo == "|" and bool(fields) and all(f == foreign for f in fields))
+                        n_rows += 1
+                        if got != want:
+                            table_bad.append((host, bo, fields, got))
+            ctx.check(not table_bad, rets_[0], "byte-order predicate agrees with its specification on all %d rows of (host order x dtype order x field orders): foreign order, or a struct whose fields are ALL foreign" % n_rows,
+                      "the byte-order predicate is wrong for (host, dtype.byteorder, field orders) = %s: arrays are byte-swapped when they must not be, or left foreign" % table_bad[:3])
+        except _Unknown as u_:
+            raise Undecidable("the byte-order predicate reads `%s`, which the table does not model" % u_)
+        except Exception as u_:
+            ctx.bad(rets_[0], "the byte-order predicate cannot be evaluated on the table (%s: %s): e.g. a field entry is indexed at the wrong position" % (type(u_).__name__, u_), key=NPU + "::_is_numpy_array_byte_order_mismatch::inputs")
     en = ctx.repo.func(NPU, "_ensure_native_byte_order")
     t_ = [n for n in nodes_of_type(en, ast.If) if isinstance(n.test, ast.Call) and call_name(n.test) == "_is_numpy_array_byte_order_mismatch"]
     ctx.check(bool(t_), t_[0] if t_ else en, "the swap is applied iff the predicate holds")
